@@ -514,7 +514,10 @@ def probe_flag_scope(ctx):
             ('on-raising-multi-line', ['>>> raiser(ValueError,  %s', '...        # a remark on a line of its own',
                                        '...        "the real message")']),
             ('on-raising-closing-line', ['>>> raiser(ValueError,', '...        # a remark on a line of its own',
-                                         '...        "the real message")  %s'])):
+                                         '...        "the real message")  %s']),
+            ('on-raising-behind-an-empty-line', ['>>> raiser(ValueError,', '...', '...        "the real message")  %s']),
+            ('on-raising-behind-an-empty-string-line', [">>> raiser(ValueError, len('''a", '...', "... b''') and",
+                                                        '...        "the real message")  %s'])):
         L = ['>>> quiet(1)'] + [ln % '# xdoctest: +IGNORE_EXCEPTION_DETAIL' if '%s' in ln else ln for ln in lines] + [
             'Traceback (most recent call last):', 'ValueError: another message', '>>> quiet(3)',
             '>>> raise KeyError("k")', 'Traceback (most recent call last):', 'KeyError: other']
@@ -545,7 +548,8 @@ def required_cells(tier):
     cells += ['earlier-raise-fails-as-it-should', 'documented-exception-under-a-non-expression-passes',
               'earlier-raise-behind-a-directive', 'output-before-exception:failed', 'output-before-exception:passed']
     cells += ['flag-scope:' + n for n, _, _ in FLAG_CARRIERS]
-    cells += ['flag-scope:on-raising-one-line', 'flag-scope:on-raising-multi-line', 'flag-scope:on-raising-closing-line']
+    cells += ['flag-scope:on-raising-one-line', 'flag-scope:on-raising-multi-line', 'flag-scope:on-raising-closing-line',
+              'flag-scope:on-raising-behind-an-empty-line', 'flag-scope:on-raising-behind-an-empty-string-line']
     return cells
 
 
